@@ -510,7 +510,7 @@ def main(argv):
         if undecided or failed or kfailed or vac:
             print('refusing to rebaseline: run not clean', undecided, list(failed), list(kfailed), vac)
             return 2
-        bl[prop] = {'obligations': sorted([o['id'] for o in all_obs] + [o['id'] for o in kob])}
+        bl[prop] = {'obligations': sorted([o['id'] for o in all_obs] + [o['id'] for o in kob] + [b['obligation'] for b in kinfo.get('bounded', [])])}
         json.dump(bl, open(os.path.join(VERIF, 'verus', 'baseline.json'), 'w'), indent=1, sort_keys=True)
         print(f'baseline for {prop}: {len(bl[prop]["obligations"])} obligations')
 
@@ -550,12 +550,16 @@ def main(argv):
                     lines_out.append(f'  failed obligation {k} ({what})')
                 rc = 1
 
-    level = 'proof'
+    # a property decided only by bounded harnesses is bounded model checking, never "proof"
+    level = 'proof' if n_obs > 0 else 'model_checking'
     ev = {
         'property_id': prop, 'tier': tier, 'seed': seed, 'level': level,
         'coverage': {
             'obligations': n_obs,
             'discharged': max(discharged, 0),
+            'evaluations': len(kinfo.get('bounded', [])) + n_obs,
+            'distinct_nontrivial': len([b for b in kinfo.get('bounded', []) if b.get('result') == 'held within bound']) + max(discharged, 0),
+            'rule': 'one evaluation = one obligation (labelled contract clause / safety obligation / complete harness) or one bounded Kani harness over its stated symbolic domain; all are distinct by construction',
             'checker_cmd': '; '.join(sorted({re.sub(r'_\d+\.rs', '.rs', r['cmd']) for r in runs if 'cmd' in r} | set(kinfo.get('cmds', [])))),
             'trusted_base': FIXED_TRUST + sorted(set(trusted)) + kinfo.get('trusted', []),
             'functions_under_contract': sorted(fns) + kinfo.get('functions', []),
@@ -582,7 +586,7 @@ def main(argv):
         print(ln)
     if rc == 0:
         print(f'OK property={prop} tier={tier} obligations={n_obs} discharged={discharged} '
-              f'(verus {len(all_obs)}, kani {len(kob)}) wall={ev["wall_s"]}s')
+              f'(verus {len(all_obs)}, kani {len(kob)}, bounded {len(kinfo.get("bounded", []))}) wall={ev["wall_s"]}s')
     # clean generated unit files of this process
     for r in runs + cruns:
         try:
